@@ -56,9 +56,11 @@ class OrderedSetSeam:
         self._tag = tag
 
     def __call__(self, it=()):
-        if not self._enabled:
-            return set(it)
         uniq = list(dict.fromkeys(it))
+        if not self._enabled:
+            # CPython's own order is a function of the element hashes (path strings, hash seed):
+            # use a fixed legal order instead so that the run stays a function of its seed
+            return _PermutedSet(sorted(uniq, key=str))
         if len(uniq) > 1:
             self._run.stats['set_order_choice_points'] += 1
             self._run.nontrivial = True
